@@ -71,7 +71,9 @@ def check_dispatch(case):
         m.time = now
     evs = []
     for hk, hbefore, times, flt in hooks:
-        ev = Rec(event_id=len(evs), prng=random.Random(0), session=None, simulator=sim, name=f"e{len(evs)}")
+        # the event's own session (the one it is listed under) starts now, earlier or LATER: hooks fire by occasion and time only, wherever the event is listed
+        own = Session(session_id=100 + len(evs), prng=random.Random(0), session_start_time=(now + 4 if len(evs) % 2 else 0), simulator=sim, name=f"own{len(evs)}")
+        ev = Rec(event_id=len(evs), prng=random.Random(0), session=own, simulator=sim, name=f"e{len(evs)}")
         kw = {}
         if hk == "market" and flt in ("class", "both"):
             kw["specific_class"] = IndexMarket
